@@ -278,6 +278,28 @@ META = {
         note=NOTE_COMMON + "Transport contract assumed: a broken transport fails all its pending and later I/O.",
         technique="Lean 4 theorems on the reader model + e2e fault enumeration under a director",
     ),
+    "C19": dict(
+        text="Proof, full for Signal; for Chan full under 'at most one Close (and no Send/Full next to it)'. drpcsignal.Signal and "
+             "drpcsignal.Chan are modelled as atomic-step transition systems (Drpc/Signal.lean, Drpc/Chan.lean: one step per atomic "
+             "load/store of the status / done word, lock acquisition, non-atomic read or write of err / ch, close, unlock, blocking "
+             "receive; unbounded threads). Proved for every reachable state, i.e. every interleaving of any number of calls: at most "
+             "one Set returns true and exactly one thread is the winner once any Set has completed (exactly_one_winner); every Get "
+             "with ok and every non-nil Err is the winner's error and such a winner exists, IsSet/Get/Set observations are monotone "
+             "(observers_see_winner, isSet_monotone); all Signal() calls return the same non-nil channel (channel_unique); close runs "
+             "at most once, only on that channel, only after the status bit is stored and err written, never on the sentinel "
+             "(closed_once_and_after_visible); with no Set in progress and one completed every channel handed out is closed and no "
+             "Wait is blocked (no_lost_wakeup); err/ch/status accesses are data-race free (race_free); no panic (no_panic). Chan: "
+             "chan_unique, first_do_wins, close_then_get_is_closed, make_after_use_is_noop, chan_race_free, no_panic_single_closer; "
+             "double Close and Send after Close panic (counterexample theorems; Go's channel contract, replayed by the suite). Tied "
+             "to the code by fingerprints of all 15 functions incl. the positions of the scheduling points and by trace validation "
+             "of real Signal/Chan objects under the director at scheduling-point granularity (all schedules for 2 goroutines x 1 op "
+             "and for selected 2 x 2 programs, counts cross-checked against the model's enumeration; seeded walks for 3).",
+        design_ref="DESIGN.md §6 C19, Appendix A.1, Appendix D",
+        note=NOTE_COMMON + "Go memory model: atomics sequentially consistent, DRF-SC; interleavings between two scheduling points "
+             "are covered by the theorems only.",
+        technique="Lean 4 invariant proofs over atomic-step models (grind per step) + regenerated tie + exhaustive/seeded schedule "
+                  "replay of the real primitives under a director",
+    ),
 }
 
 _NYB = "check not built yet in this round (planned: Lean model + correspondence, see DESIGN.md §6)"
